@@ -775,7 +775,10 @@ def locate_cases(draw):
     elif fn in ("index2bool", "flippv"):
         n = draw(st.integers(0, 12))
         c["n"] = n
-        c["pv"] = draw(st.lists(st.integers(0, n - 1), min_size=0, max_size=n + 2)) if n else []
+        # numpy index vectors: from-the-end (negative) positions are legal (index2slice documents
+        # pv=[-1]); a third of the cases mix them in
+        lo = -n if draw(st.sampled_from([False, False, True])) else 0
+        c["pv"] = draw(st.lists(st.integers(lo, n - 1), min_size=0, max_size=n + 2)) if n else []
         c["arr"] = draw(st.booleans())
     elif fn == "index2slice":
         kind = draw(st.sampled_from(["step", "step", "down", "rand", "neg", "single", "empty",
@@ -928,17 +931,21 @@ def oracle_locate(case, R):
         pv, n = case["pv"], case["n"]
         arg = np.array(pv, dtype=np.int64) if case["arr"] else pv
         got = locate.index2bool(arg, n)
-        want = [i in pv for i in range(n)]
+        sel = {p % n for p in pv}                # positions numpy indexing selects
+        want = [i in sel for i in range(n)]
         R.check(isinstance(got, np.ndarray) and got.dtype == bool and got.tolist() == want,
                 "index2bool", f"pv={pv} n={n}: {np.asarray(got).tolist()}")
+        R.label("pv:negative" if any(p < 0 for p in pv) else "pv:nonneg")
         R.nontrivial(len(set(pv)) < len(pv))
     elif fn == "flippv":
         pv, n = case["pv"], case["n"]
         arg = np.array(pv, dtype=np.int64) if case["arr"] else pv
         got = locate.flippv(arg, n)
-        want = [i for i in range(n) if i not in pv]
+        sel = {p % n for p in pv}
+        want = [i for i in range(n) if i not in sel]
         R.check(_is_int_array(got) and got.tolist() == want, "flippv",
                 f"pv={pv} n={n}: {np.asarray(got).tolist()} want {want}")
+        R.label("pv:negative" if any(p < 0 for p in pv) else "pv:nonneg")
         R.nontrivial(len(set(pv)) < len(pv) or pv != sorted(pv))
     elif fn == "index2slice":
         pv, strict = case["pv"], case["strict"]
